@@ -49,9 +49,18 @@ def vacuity(res, rule, minimum):
 
 def own_rule(ctx, fields):
     """OWN premise (filled in by sa.eff once available)."""
-    try:
-        from sa import eff
-    except ImportError:
-        ctx.res.note("OWN premise not yet checked structurally")
-        return
-    eff.check_own(ctx, fields)
+    from sa import eff
+    from sa.harness import H
+    if getattr(ctx, "_actual_fields", None) is None:
+        ctx._actual_fields = H(ctx.src).actual      # state fields located by role (a tree may have renamed them)
+    role = {"Vertex._links": "links", "Link._vertices": "ends", "Universe._vertices": "members", "BaseObject._universes": "universes", "Universe._laws": "laws",
+            "UniverseLaws._applies_to": "applies_to"}
+    actual = {}
+    for spec in fields:
+        if spec in role:
+            name = ctx._actual_fields[role[spec]]
+            cname = spec.split(".", 1)[0]
+            actual[spec] = name
+            if name != spec.split(".", 1)[1]:
+                ctx.res.note(f"state field {spec} is called `{name}` in this tree (located by role)")
+    eff.check_own(ctx, fields, actual)
